@@ -3221,8 +3221,10 @@ orc_compiler_mmx_register_rules (OrcTarget *target)
   rule_set = orc_rule_set_new (orc_opcode_set_get("sys"), target,
       ORC_TARGET_MMX_MMXEXT);
 #else
+  /* the rules (and the constant loaders) use pshufw, pinsrw, pavgb, pmaxsw
+   * and friends, which came with the SSE integer extensions */
   rule_set = orc_rule_set_new (orc_opcode_set_get("sys"), target,
-      ORC_TARGET_MMX_MMX);
+      ORC_TARGET_MMX_MMX | ORC_TARGET_MMX_MMXEXT);
 #endif
 
   orc_rule_register (rule_set, "loadb", mmx_rule_loadX, NULL);
